@@ -4,6 +4,7 @@
 pub mod tables;
 pub mod midas;
 pub mod sim;
+pub mod calib;
 
 use tables::*;
 
